@@ -685,6 +685,41 @@ def r17h(F):
 	out.append(Result('17.h', len(pushes) >= 1, ('ok:' if len(pushes) >= 1 else 'shape:') + 'nodes-linked', 'add_channel_between_nodes links the channel id into its nodes (%d push site(s))' % len(pushes), len(pushes), where=F.where(fn)))
 	return out
 
+def r17i(F):
+	"""while a channel_announcement waits for its UTXO lookup, later channel_updates / node_announcements are parked: the parked message is
+	replaced only by one with a strictly newer timestamp (or when nothing is parked), so that what is applied on resolution is what direct
+	delivery would have left in the graph"""
+	out = []
+	for fn in ('check_hold_pending_channel_update', 'check_hold_pending_node_announcement'):
+		full = 'lightning::routing::utxo::PendingChecks::' + fn
+		gs = guards_in(F, full, with_closures=True)
+		cmps = []
+		for g in gs:
+			terms, op, K, used = g.nf
+			held = [v for v in terms if re.search(r'(^|[^a-z_])timestamp\(', v)]
+			new = [v for v in terms if re.search(r'\.timestamp$', v)]
+			if len(terms) == 2 and len(held) == 1 and len(new) == 1:
+				o = g.oriented(r'\.timestamp$')
+				cmps.append((g, o))
+		if not cmps:
+			out.append(Result('17.i', False, 'guard:parked-replaced-only-by-newer@' + fn, '%s: no comparison of the parked message\'s timestamp with the new message\'s timestamp' % fn, len(gs), where=F.where(F.fn(full))))
+			continue
+		for g, o in cmps:
+			ok = (o[1], o[2]) in (('Gt', 0), ('Ge', 1)) and bool(g.decisions)
+			if ok:
+				# polarity: the parked slot is overwritten (a Full / Unsigned wrapper is built) only past the true edge of this test or of `is_none()`
+				cu = g.fu
+				stores = {b for b, si in sites_construct(cu, 'utxo::ChannelUpdate')} | {b for b, si in sites_construct(cu, 'utxo::NodeAnnouncement')}
+				nb = [b for b, ci in cu.calls() if norm(ci.get('f') or '').endswith('Option::is_none')]
+				pe = set()
+				for d in list(g.decisions) + call_decisions(cu, nb, 'bool'):
+					pe |= set(d.true_edges)
+				live = cu.reach([0], removed_edges=pe)
+				if not stores or (stores & live):
+					ok = False
+			out.append(Result('17.i', ok, ('ok:' if ok else 'shape:') + 'parked-replaced-only-by-newer@' + fn, '%s: the parked message is replaced iff `%s` (expected: new timestamp - parked timestamp > 0)' % (fn, cmp_str(o)), 1, where=F.where(g.fu.name, g.line)))
+	return out
+
 RULES = [
 	('17.h', 'replacing a chain-validated channel always unlinks the old entry from its nodes before overwriting it', r17h),
 	('17.g', 'a channel leaving the graph is unlinked from the nodes of the stored entry, not of a caller-supplied ChannelInfo', r17g),
@@ -696,4 +731,5 @@ RULES = [
 	('17.f', 'graph maps are mutated only by the frozen function set', r17f),
 	('17.p', 'same-name field transfer: structs carrying this property\'s quantities are filled from the same-named field or a reviewed alias (rules/provenance.py)', lambda F: provenance.for_property(F, 'C17', '17.p')),
 	('17.q', 'no call hands a value named like one parameter of the callee to a different parameter (swapped type-compatible arguments; rules/provenance.py)', lambda F: provenance.swaps_for_property(F, 'C17', '17.q')),
+	('17.i', 'messages parked during an async UTXO lookup are replaced only by newer ones (both parking routines)', r17i),
 ]
